@@ -27,6 +27,8 @@ func init() {
 				{H: sym.Harness{Pkg: "meta/webpmeta", Func: "VerifHarness_C05_VP8X"}, ExpectReach: []string{"vp8x-parsed"}, SamplePaths: 2},
 				{H: sym.Harness{Pkg: "meta/pngmeta", Func: "VerifHarness_C05_PNG", SetGlobals: k, Workers: 14}, ExpectReach: []string{"png-parsed"}, SamplePaths: 3},
 				{H: sym.Harness{Pkg: "meta/pngmeta", Func: "VerifHarness_C05_PNG_ICC", Workers: 6}, ExpectReach: []string{"png-icc-parsed"}, SamplePaths: 1},
+				{H: sym.Harness{Pkg: "meta/pngmeta", Func: "VerifHarness_C05_PNG_Big", SetGlobals: map[string]int64{"verifC05K": 2}, Workers: 8}, ExpectReach: []string{"png-parsed"}, SamplePaths: 1},
+				{H: sym.Harness{Pkg: "meta/jpegmeta", Func: "VerifHarness_C05_JPEG_Big", SetGlobals: map[string]int64{"verifC05K": 2}, Workers: 8}, ExpectReach: []string{"jpeg-parsed"}, SamplePaths: 1},
 				{H: sym.Harness{Pkg: "meta/jpegmeta", Func: "VerifHarness_C05_JPEG", SetGlobals: k, Workers: 14}, ExpectReach: []string{"jpeg-parsed"}, SamplePaths: 3},
 				{H: sym.Harness{Pkg: "meta/autometa", Func: "VerifHarness_C05_AutoPNG"}, ExpectReach: []string{"auto-png"}, SamplePaths: 1},
 				{H: sym.Harness{Pkg: "meta/autometa", Func: "VerifHarness_C05_AutoJPEG"}, ExpectReach: []string{"auto-jpeg"}, SamplePaths: 1},
